@@ -248,6 +248,19 @@ def units(tier):
     # contract of C08) yields pointer fields that are null or inside the sandbox the struct lives in
     from . import C08
     sinsts = []
+    # address-of a struct that lives in sandbox memory (macro-generated operator&): designates the struct itself
+    for S in (['VOuter'] if tier == 'quick' else ['VOuter', 'VInner']):
+        TVS = cs('rlbox::tainted_volatile<rlbox::%s, rlbox::vsbx>' % S)
+        cl = [('address_of_this', '__CPROVER_ensures((uintptr_t)$ret.data == (uintptr_t)$this)'), ('frame', '__CPROVER_assigns()')]
+        h = '  uintptr_t in_cell;\n  struct %s r = $ROOT((void *)in_cell);\n' % cs('rlbox::tainted<const rlbox::%s *, rlbox::vsbx>' % S)
+        sinsts.append(Inst('c03_addrof_struct_%s' % S, 'tainted_volatile<const %s, vsbx>& tv' % S, '&tv;', cl, h, leaves=[], prop=PROP, root_name='operator&', tier=tier,
+                           pre=PRE_GHOST, may_not_compile=True, note='ptr_inv of the result follows from cell_inv of the struct: same address (struct reached through a pointer to const: the form for non-const structs does not compile on the pinned tree)'))
+    # reading a struct out by value (UNSAFE_unverified: a further macro-generated field loop) - pointer fields likewise
+    for S in (['VOuter'] if tier == 'quick' else ['VOuter', 'VMisc']):
+        it = C08.unverified_inst(S, tier)
+        it.name = it.name.replace('c08_', 'c03_struct_')
+        it.prop = PROP
+        sinsts.append(it)
     for S in (['VOuter'] if tier == 'quick' else ['VOuter', 'VRev']):
         it = C08.load_inst(S, tier)
         it.name = it.name.replace('c08_', 'c03_struct_')
